@@ -446,6 +446,23 @@ func (b *Builder) bin(op Op, x, y *Term) *Term {
 			return x
 		}
 	case OpBvMul:
+		// c1*(c2*z) = (c1*c2)*z  (keeps chains of multiplications by constants flat)
+		if x.IsConst() && y.Op == OpBvMul {
+			if y.Args[0].IsConst() {
+				return b.bin(OpBvMul, b.Const(w, x.Val*y.Args[0].Val), y.Args[1])
+			}
+			if y.Args[1].IsConst() {
+				return b.bin(OpBvMul, b.Const(w, x.Val*y.Args[1].Val), y.Args[0])
+			}
+		}
+		if y.IsConst() && x.Op == OpBvMul {
+			if x.Args[0].IsConst() {
+				return b.bin(OpBvMul, b.Const(w, y.Val*x.Args[0].Val), x.Args[1])
+			}
+			if x.Args[1].IsConst() {
+				return b.bin(OpBvMul, b.Const(w, y.Val*x.Args[1].Val), x.Args[0])
+			}
+		}
 		if x.IsConst() && x.Val == 1 {
 			return y
 		}
@@ -481,7 +498,17 @@ func (b *Builder) Urem(x, y *Term) *Term { return b.bin(OpBvUrem, x, y) }
 func (b *Builder) Sdiv(x, y *Term) *Term { return b.bin(OpBvSdiv, x, y) }
 func (b *Builder) Srem(x, y *Term) *Term { return b.bin(OpBvSrem, x, y) }
 func (b *Builder) BvAnd(x, y *Term) *Term { return b.bin(OpBvAnd, x, y) }
-func (b *Builder) BvOr(x, y *Term) *Term  { return b.bin(OpBvOr, x, y) }
+func (b *Builder) BvOr(x, y *Term) *Term {
+	t := b.bin(OpBvOr, x, y)
+	if t.Op == OpBvOr {
+		if ls, ok := lanesOf(t, 0); ok && len(ls) > 1 {
+			if m, ok := b.mergeLanes(ls, t.W); ok {
+				return m
+			}
+		}
+	}
+	return t
+}
 func (b *Builder) BvXor(x, y *Term) *Term { return b.bin(OpBvXor, x, y) }
 func (b *Builder) Shl(x, y *Term) *Term   { return b.bin(OpBvShl, x, y) }
 func (b *Builder) Lshr(x, y *Term) *Term  { return b.bin(OpBvLshr, x, y) }
@@ -640,7 +667,13 @@ func (b *Builder) Concat(hi, lo *Term) *Term {
 	if hi.IsConst() && hi.Val == 0 {
 		return b.Zext(lo, w)
 	}
-	return b.mk(OpConcat, w, 0, 0, 0, "", hi, lo)
+	t := b.mk(OpConcat, w, 0, 0, 0, "", hi, lo)
+	if ls, ok := lanesOf(t, 0); ok && len(ls) > 1 {
+		if m, ok := b.mergeLanes(ls, w); ok {
+			return m
+		}
+	}
+	return t
 }
 
 // Resize truncates or extends x to width w.
@@ -660,6 +693,13 @@ func (b *Builder) Resize(x *Term, w int, signed bool) *Term {
 // Eval evaluates t under a model (variables by name; missing = 0).
 // Arrays and UFs are not supported (ok=false).
 func Eval(t *Term, model map[string]uint64, memo map[*Term]uint64) (v uint64, ok bool) {
+	if memo == nil {
+		if len(t.Args) == 0 {
+			memo = nil
+		} else {
+			memo = make(map[*Term]uint64)
+		}
+	}
 	if memo != nil {
 		if v, ok := memo[t]; ok {
 			return v, true
@@ -820,4 +860,120 @@ func lz(t *Term, depth int) int {
 		return 0
 	}
 	return 0
+}
+
+// ---- byte-lane normalisation -------------------------------------------------
+// Values are constantly split into bytes (stores into byte buffers, file images)
+// and recombined (binary.LittleEndian, 4-byte loads). lanesOf recognises terms of
+// the shape  OR_i ( zext(src_i[hi:lo]) << k_i )  and merges adjacent lanes that
+// come from adjacent bits of one source, so split-then-recombine folds back to
+// the original term syntactically.
+
+type lane struct {
+	src   *Term
+	srcLo int
+	w     int
+	dstLo int
+}
+
+func lanesOf(t *Term, depth int) ([]lane, bool) {
+	if depth > 12 || t.W == 0 {
+		return nil, false
+	}
+	switch t.Op {
+	case OpConst:
+		if t.Val == 0 {
+			return nil, true
+		}
+		return nil, false
+	case OpExtract:
+		return []lane{{t.Args[0], t.P2, t.W, 0}}, true
+	case OpZext:
+		return lanesOf(t.Args[0], depth+1)
+	case OpBvShl:
+		k := t.Args[1]
+		if !k.IsConst() {
+			return nil, false
+		}
+		ls, ok := lanesOf(t.Args[0], depth+1)
+		if !ok {
+			return nil, false
+		}
+		var out []lane
+		for _, l := range ls {
+			l.dstLo += int(k.Val)
+			if l.dstLo >= t.W {
+				continue
+			}
+			if l.dstLo+l.w > t.W {
+				l.w = t.W - l.dstLo
+			}
+			out = append(out, l)
+		}
+		return out, true
+	case OpConcat:
+		lo, ok1 := lanesOf(t.Args[1], depth+1)
+		hi, ok2 := lanesOf(t.Args[0], depth+1)
+		if !ok1 || !ok2 {
+			return nil, false
+		}
+		out := append([]lane(nil), lo...)
+		for _, l := range hi {
+			l.dstLo += t.Args[1].W
+			out = append(out, l)
+		}
+		return out, true
+	case OpBvOr:
+		a, ok1 := lanesOf(t.Args[0], depth+1)
+		c, ok2 := lanesOf(t.Args[1], depth+1)
+		if !ok1 || !ok2 {
+			return nil, false
+		}
+		out := append(append([]lane(nil), a...), c...)
+		if len(out) > 16 {
+			return nil, false
+		}
+		// must be disjoint
+		for i := range out {
+			for j := i + 1; j < len(out); j++ {
+				if out[i].dstLo < out[j].dstLo+out[j].w && out[j].dstLo < out[i].dstLo+out[i].w {
+					return nil, false
+				}
+			}
+		}
+		return out, true
+	case OpVar, OpBvAdd, OpBvSub, OpBvMul, OpBvXor, OpBvAnd, OpIte, OpUF, OpBvNot, OpBvNeg, OpSext, OpBvLshr, OpBvAshr, OpSelect, OpBvUdiv, OpBvUrem, OpBvSdiv, OpBvSrem:
+		return []lane{{t, 0, t.W, 0}}, true
+	}
+	return nil, false
+}
+
+// mergeLanes tries to rebuild a term of width w from lanes; ok=false if no simplification.
+func (b *Builder) mergeLanes(ls []lane, w int) (*Term, bool) {
+	if len(ls) == 0 {
+		return nil, false
+	}
+	// sort by dstLo (insertion sort; tiny)
+	for i := 1; i < len(ls); i++ {
+		for j := i; j > 0 && ls[j].dstLo < ls[j-1].dstLo; j-- {
+			ls[j], ls[j-1] = ls[j-1], ls[j]
+		}
+	}
+	merged := []lane{ls[0]}
+	for _, l := range ls[1:] {
+		m := &merged[len(merged)-1]
+		if l.src == m.src && l.dstLo == m.dstLo+m.w && l.srcLo == m.srcLo+m.w {
+			m.w += l.w
+		} else {
+			merged = append(merged, l)
+		}
+	}
+	if len(merged) != 1 || len(ls) == 1 {
+		return nil, false
+	}
+	m := merged[0]
+	if m.dstLo != 0 {
+		return nil, false
+	}
+	return b.Zext(b.Extract(m.src, m.srcLo+m.w-1, m.srcLo), w), true
 }
